@@ -276,8 +276,13 @@ def precise_diff(
                 d_diff += d1.day
             else:
                 d_diff += days_in_last_month
-        elif d_diff == days_in_month - days_in_last_month:
-            # We have exactly a full month
+        elif (
+            d_diff == days_in_month - days_in_last_month
+            and d2.day == days_in_month
+            and d_diff == d2.day - d1.day
+        ):
+            # We have exactly a full month (last day of a month
+            # to the last day of the next one, same time or later)
             # We remove the days difference
             # and add one to the months difference
             d_diff = 0
